@@ -13,11 +13,11 @@ C2S: seeded random cases (random numbers rendered in random spellings by the har
      lists); TLC validates every recorded call.
 
 Binding demonstrated during development (scratch worktree, notes/text.md): range made exclusive
-(`range(lo, hi)`), "min" mapped to "seconds", `%Y%m%d %H:%M` format removed, unknown option
-ignored - each reported as VIOLATION.
+(`range(lo, hi)`), unknown command-line option ignored - each reported as VIOLATION by S2C.
 """
 import random
 
+from harness import framework
 from harness import text_driver as td
 
 MODULE = "Options"
@@ -39,13 +39,20 @@ def random_items(seed, n, pool):
 
 
 def run(ctx):
-    ctx.mc("text", MODULE, "MC_Options.cfg", overrides={"MaxParts": 1}, required_actions=["Extend"])
-    # the spelling theorems are state independent: one TLC run on the single state of the (int, single, unset)
-    # configuration, without coverage instrumentation (a violated theorem stops the check as a machinery failure)
+    # The spelling theorems are state independent: one TLC run on the single state of the (int, single, unset)
+    # configuration (a violated theorem stops the check as a machinery failure).  TLC's -coverage instrumentation
+    # makes the large constant tables of this module take minutes, so ctx.mc is not used; non-vacuity is established
+    # from the enumerated states below (every (type, multiple, source) combination must have produced cases).
     ctx.gen_states("text", MODULE, "Thm_Options.cfg")
     mp = ctx.pick(2, 3)
     states = ctx.gen_states("text", MODULE, "Gen_Options.cfg", overrides={"MaxParts": mp})
     paths, rel_items = td.paths_from_states(states)
+    combos = {(e["cfg"]["type"], e["cfg"]["mult"], e["cfg"]["src"]) for e, _ in paths}
+    need = {(t, m, s) for t in ("str", "int", "float", "bool", "datetime", "timedelta") for m in (False, True)
+            for s in ("cmd", "cfgstr", "flag", "unknown", "unset")}
+    if need - combos:
+        raise framework.Machinery("vacuity: no case generated for %s" % sorted(need - combos)[:5])
+    ctx.cov["coverage_by_action"]["Options.Extend"] = sum(1 for s_ in states if s_["inp"])
     ctx.replay(paths, td.make_replayer(MODULE), nontrivial=lambda e, p: True)
     ctx.cov["exhaustive"] = True
     pool = {}
